@@ -153,6 +153,7 @@ class OutgoingRIB(Cache):
     def replace_restart(self, previous: list[Route], new: list[Route]) -> None:
         if not self.enabled:
             return
+        self._forget_watchdog(previous)
         # this requires that all routes are announcements
         indexed: dict[bytes, Route] = {}
 
@@ -168,9 +169,21 @@ class OutgoingRIB(Cache):
         for index in list(indexed):
             self.del_from_rib(indexed.pop(index))
 
+    def _forget_watchdog(self, previous: list[Route]) -> None:
+        # the routes of the configuration which is replaced leave the watchdog groups (the new ones were
+        # registered when they were parsed): 'announce watchdog <name>' announced again a route the reload
+        # had removed, or the old version of one which is no longer in the group
+        for route in previous:
+            index = route.index()
+            for groups in self._watchdog.values():
+                for routes in groups.values():
+                    if routes.get(index) is route:
+                        del routes[index]
+
     def replace_reload(self, previous: list[Route], new: list[Route]) -> None:
         if not self.enabled:
             return
+        self._forget_watchdog(previous)
         # this requires that all routes are announcements
         indexed: dict[bytes, Route] = {}
 
